@@ -445,6 +445,12 @@ func (e *ControllerEngine) StartWatches(name string, ws ...Watch) error {
 		// Record that we're now running this source.
 		c.sources[wid] = src
 
+		// Starting the source started an informer for its kind if there wasn't
+		// one already. Record that too, or a second watch with the same ID in
+		// ws (e.g. two composed resources of one kind) would be started as
+		// well, replacing this source without stopping it.
+		activeInformer[wid.GVK] = true
+
 		e.log.Debug("Started watching GVK", "controller", name, "watch-type", wid.Type, "watched-gvk", wid.GVK)
 	}
 
